@@ -23,6 +23,8 @@ The analysis (fail closed: anything else raises Unsupported):
   * statements: sequences, if / else, try (handlers start anywhere between the try's entry and its end), with,
     return, raise, for / while (header expression counted once; a loop BODY, a comprehension's element, a nested
     function or a lambda must contain no counted call -- they run any number of times);
+  * `self`, `self.metadata_manager`, `self.snapshot_manager` handed to other code, or a counted method referenced
+    without being called (an alias, a hook): Unsupported -- calls through them could not be counted;
   * calls `self.m(...)`, `self.metadata_manager.m(...)`, `self.snapshot_manager.m(...)` are followed into Table /
     MetadataManager / SnapshotManager; `MetadataManager.refresh` (resp. `.commit`) is the counted primitive;
     calls on any other receiver count 0, and the modules behind those receivers (file_manager.py,
@@ -125,9 +127,19 @@ class Counter:
         return st, exits
 
     def must_be_zero(self, cls: str, fn: ast.FunctionDef, node: ast.AST, what: str) -> None:
+        skip = set()
+        for n in ast.walk(node):
+            if isinstance(n, ast.Call) and isinstance(n.func, ast.Attribute):
+                skip.add(id(n.func))                        # judged as a call below
+                if ast.unparse(n.func.value) in RECEIVERS[cls]:
+                    skip.add(id(n.func.value))
+            if isinstance(n, ast.Attribute) and isinstance(n.value, ast.Name):
+                skip.add(id(n.value))
         for n in ast.walk(node):
             if isinstance(n, ast.Call) and self.expr_call(cls, fn, n, frozenset()) != ZERO:
                 raise Unsupported(f"{cls}.{fn.name}: a counted call inside {what}: {ast.unparse(n)[:80]}")
+            if isinstance(n, (ast.Attribute, ast.Name)) and id(n) not in skip:
+                self.expr(cls, fn, n, frozenset())          # raises when a counted object or method escapes
 
     def stmt(self, cls: str, fn: ast.FunctionDef, s: ast.stmt, st: Iv, provided: FrozenSet[str]) -> Tuple[Optional[Iv], Optional[Iv]]:
         where = f"{cls}.{fn.name}"
@@ -209,9 +221,26 @@ class Counter:
             j = join(self.expr(cls, fn, e.body, provided), self.expr(cls, fn, e.orelse, provided))
             assert j is not None
             return add(t, j)
+        if isinstance(e, ast.Name):
+            if e.id == "self":
+                raise Unsupported(f"{cls}.{fn.name}: `self` is handed to other code (calls through it cannot be counted)")
+            return ZERO
+        if isinstance(e, ast.Attribute):
+            u = ast.unparse(e)
+            if u != "self" and u in RECEIVERS[cls]:
+                raise Unsupported(f"{cls}.{fn.name}: `{u}` is handed to other code (calls through it cannot be counted)")
+            recv = ast.unparse(e.value)
+            if recv in RECEIVERS[cls]:
+                # a bound method taken without calling it (a hook, an alias): it may be called any number of times
+                tcls = RECEIVERS[cls][recv]
+                if (tcls, e.attr) == self.primitive or (self.fn(tcls, e.attr) is not None
+                                                        and self.call_count(tcls, e.attr, frozenset(), (cls, fn.name)) != ZERO):
+                    raise Unsupported(f"{cls}.{fn.name}: the counted method {u} is referenced without being called")
+                return ZERO
+            return self.expr(cls, fn, e.value, provided)
         if isinstance(e, ast.Call):
             if isinstance(e.func, ast.Attribute):
-                total = self.expr(cls, fn, e.func.value, provided)
+                total = ZERO if ast.unparse(e.func.value) in RECEIVERS[cls] else self.expr(cls, fn, e.func.value, provided)
             elif isinstance(e.func, ast.Name):
                 total = ZERO
             else:
